@@ -168,29 +168,26 @@ Definition aspath_iter (a : attr) : res (list (list N)) :=
   | Some b => Ok (aspath_segs (length b) b)
   end.
 
-(* Attribute::as_path_length, usize accumulator (after commit "count AS_PATH
-   hops in usize"): read_u8().unwrap() twice per segment, unreachable!() on a
-   type outside 1..4, set_position may run past the end. *)
-Fixpoint aslen_loop (fuel : nat) (b : list N) (acc : N) : res N :=
+(* Attribute::as_path_length: usize accumulator; a missing count byte ends the
+   scan, AS_SET counts 1, AS_SEQUENCE its count, every other type 0;
+   set_position may run past the end. *)
+Fixpoint aslen_loop (fuel : nat) (b : list N) (acc : N) : N :=
   match fuel with
-  | O => Ok acc
+  | O => acc
   | S f =>
       match b with
-      | [] => Ok acc
-      | _ :: [] => Panic P_READ_U8
+      | [] => acc
+      | _ :: [] => acc
       | t :: l :: r =>
-          do acc' <- (if t =? SEG_SET then Ok (acc + 1)
-                      else if t =? SEG_SEQ then Ok (acc + l)
-                      else if (t =? SEG_CONFED_SEQ) || (t =? SEG_CONFED_SET) then Ok acc
-                      else Panic P_UNREACHABLE);
-          aslen_loop f (skipn (N.to_nat (4 * l)) r) acc'
+          aslen_loop f (skipn (N.to_nat (4 * l)) r)
+                     (if t =? SEG_SET then acc + 1 else if t =? SEG_SEQ then acc + l else acc)
       end
   end.
 
 Definition as_path_length (a : attr) : res N :=
   match attr_binary a with
   | None => Panic P_UNWRAP_BINARY
-  | Some b => aslen_loop (length b) b 0
+  | Some b => Ok (aslen_loop (length b) b 0)
   end.
 
 (* as_path_prepend (seg = 2) / as_path_prepend_confed (seg = 3) *)
@@ -201,7 +198,8 @@ Definition as_path_prepend (seg : N) (a : attr) (asn : N) : res attr :=
       match b with
       | [] => Ok {| a_code := a_code a; a_flags := a_flags a;
                     a_data := DBin (seg :: 1 :: u32_bytes asn) |}
-      | _ :: [] => Panic P_INDEX                        (* buf[1] *)
+      | _ :: [] => Ok {| a_code := a_code a; a_flags := a_flags a;
+                         a_data := DBin (seg :: 1 :: u32_bytes asn ++ b) |}
       | b0 :: b1 :: r =>
           if (b0 =? seg) && (b1 <? 255) then
             Ok {| a_code := a_code a; a_flags := a_flags a;
@@ -546,11 +544,10 @@ Section WithRegex.
   Definition I64_MAX : Z := (2 ^ 63 - 1)%Z.
   Definition wrap_i64 (z : Z) : Z := ((z + 2 ^ 63) mod 2 ^ 64 - 2 ^ 63)%Z.
 
-  (* current as i64 + action.value *)
-  Definition add_i64 (pr : profile) (a b : Z) : res Z :=
+  (* (current as i64).saturating_add(action.value) *)
+  Definition sat_add_i64 (a b : Z) : Z :=
     let s := (a + b)%Z in
-    if ((I64_MIN <=? s) && (s <=? I64_MAX))%Z then Ok s
-    else match pr with Debug => Panic P_OVERFLOW | Release => Ok (wrap_i64 s) end.
+    if (s <? I64_MIN)%Z then I64_MIN else if (I64_MAX <? s)%Z then I64_MAX else s.
 
   Definition clamp_u32 (z : Z) : N :=
     if (z <? 0)%Z then 0 else if (4294967295 <? z)%Z then 4294967295 else Z.to_N z.
@@ -599,17 +596,16 @@ Section WithRegex.
     | Some v => push_opt (retain_not ORIGIN l) (new_with_value ORIGIN v)
     end.
 
-  Definition act_med (pr : profile) (a : option (bool * Z)) (l : list attr) : res (list attr) :=
+  Definition act_med (a : option (bool * Z)) (l : list attr) : list attr :=
     match a with
-    | None => Ok l
+    | None => l
     | Some (replace, v) =>
         let cur := match find_attr MED l with
                    | Some m => match attr_value m with Some w => w | None => 0 end
                    | None => 0
                    end in
-        do nm <- (if replace then Ok (clamp_u32 v)
-                  else do s <- add_i64 pr (Z.of_N cur) v; Ok (clamp_u32 s));
-        Ok (push_opt (retain_not MED l) (new_with_value MED nm))
+        let nm := if replace then clamp_u32 v else clamp_u32 (sat_add_i64 (Z.of_N cur) v) in
+        push_opt (retain_not MED l) (new_with_value MED nm)
     end.
 
   Definition act_prepend (x : ctx) (a : option (N * N * bool)) (l : list attr) : res (list attr) :=
@@ -631,7 +627,7 @@ Section WithRegex.
     end.
 
   (* Statement::apply *)
-  Definition stmt_apply (pr : profile) (x : ctx) (s : stmt) (r : rstate) : res (disp * rstate) :=
+  Definition stmt_apply (x : ctx) (s : stmt) (r : rstate) : res (disp * rstate) :=
     do m <- conds_all x r (st_conds s);
     if negb m then Ok (DPass, r)
     else
@@ -639,7 +635,7 @@ Section WithRegex.
       let nh := act_nexthop x (ac_nexthop a) (r_nh r) in
       let l1 := act_comm (ac_comm a) (r_attrs r) in
       let l2 := act_local_pref (ac_local_pref a) l1 in
-      do l3 <- act_med pr (ac_med a) l2;
+      let l3 := act_med (ac_med a) l2 in
       do l4 <- act_prepend x (ac_prepend a) l3;
       let l5 := act_ext (ac_ext a) l4 in
       let l6 := act_large (ac_large a) l5 in
@@ -648,39 +644,39 @@ Section WithRegex.
           {| r_attrs := l7; r_nh := nh |}).
 
   (* Policy::apply *)
-  Fixpoint policy_apply (pr : profile) (x : ctx) (l : list stmt) (r : rstate) : res (disp * rstate) :=
+  Fixpoint policy_apply (x : ctx) (l : list stmt) (r : rstate) : res (disp * rstate) :=
     match l with
     | [] => Ok (DPass, r)
     | s :: rest =>
-        do dr <- stmt_apply pr x s r;
+        do dr <- stmt_apply x s r;
         let '(d, r') := dr in
-        if disp_eqb d DPass then policy_apply pr x rest r' else Ok (d, r')
+        if disp_eqb d DPass then policy_apply x rest r' else Ok (d, r')
     end.
 
   (* PolicyAssignment::apply *)
-  Fixpoint pols_apply (pr : profile) (x : ctx) (dflt : disp) (l : list policy) (r : rstate)
+  Fixpoint pols_apply (x : ctx) (dflt : disp) (l : list policy) (r : rstate)
     : res (disp * rstate) :=
     match l with
     | [] => Ok (dflt, r)
     | p :: rest =>
-        do dr <- policy_apply pr x (p_stmts p) r;
+        do dr <- policy_apply x (p_stmts p) r;
         let '(d, r') := dr in
-        if disp_eqb d DPass then pols_apply pr x dflt rest r' else Ok (d, r')
+        if disp_eqb d DPass then pols_apply x dflt rest r' else Ok (d, r')
     end.
 
-  Definition eval_code (pr : profile) (a : assignment) (x : ctx) (r : rstate) : res (disp * rstate) :=
-    pols_apply pr x (as_disp a) (as_pols a) r.
+  Definition eval_code (a : assignment) (x : ctx) (r : rstate) : res (disp * rstate) :=
+    pols_apply x (as_disp a) (as_pols a) r.
 
   (* apply_export *)
   Definition apply_export := eval_code.
 
   (* apply_import: original nexthop = current, never towards a confederation
      member, addresses from the source; result (filtered, attrs, nexthop) *)
-  Definition apply_import (pr : profile) (a : assignment) (src : source) (n : nlri) (r : rstate)
+  Definition apply_import (a : assignment) (src : source) (n : nlri) (r : rstate)
     : res (bool * rstate) :=
     let x := {| x_src := src; x_net := n; x_orig_nh := r_nh r; x_confed := false;
                 x_local := s_local_addr src; x_peer := s_remote_addr src |} in
-    do dr <- eval_code pr a x r;
+    do dr <- eval_code a x r;
     Ok (disp_eqb (fst dr) DReject, snd dr).
 End WithRegex.
 
